@@ -466,7 +466,7 @@ func checkPDF(data []byte, m *docModel, r *fw.R) (*findings, [20]byte) {
 				if sh.AdjAfter > 0 {
 					r.Max("pen displacement error after a pen-back (positive) TJ number (1/1000 em)", errAdv)
 				}
-				if errAdv > 1+1e-6 {
+				if !(errAdv <= 1+1e-6) {
 					class := "pen-advance"
 					fontW := sh.W
 					adj := sh.AdjAfter
@@ -496,7 +496,7 @@ func checkPDF(data []byte, m *docModel, r *fw.R) (*findings, [20]byte) {
 				scale := math.Hypot(dr.m[0], dr.m[1])
 				errLin := math.Max(math.Max(math.Abs(trm[0]/ptPerMm-ex), math.Abs(trm[1]/ptPerMm-ey)), math.Max(math.Abs(trm[2]/ptPerMm-fx), math.Abs(trm[3]/ptPerMm-fy)))
 				r.Max("text matrix error (1/1000 em)", errLin/(sp.size*scale)*1000)
-				if errLin > 1e-4*sp.size*scale {
+				if !(errLin <= 1e-4*sp.size*scale) {
 					f.add("text-matrix", "glyph %d of the span: the em square is mapped to x-axis (%.6g,%.6g) y-axis (%.6g,%.6g) mm, the layout (size %.6g mm, rotation %g, view %v) asks for (%.6g,%.6g) (%.6g,%.6g); %s", i, trm[0]/ptPerMm, trm[1]/ptPerMm, trm[2]/ptPerMm, trm[3]/ptPerMm, sp.size, sp.rotation, dr.m, ex, ey, fx, fy, ctx())
 					continue
 				}
